@@ -34,7 +34,7 @@ func init() { harness.Register(check{}) }
 func (check) ID() string    { return "C10" }
 func (check) Level() string { return "exploration" }
 func (check) Rule() string {
-	return "stress sessions under the Go race detector on an in-memory console: 2-16 producer goroutines mixing PostEvent / PostEventBlocking / SyncFunc / Resize with unique (producer, sequence) ids, 0-3 query goroutines (CursorPosition, colour queries, ClipboardPop with a deadline), terminal input arriving in bursts including lone ESC around the Escape timer and in-band resize reports, a spinner widget started/stopped/toggled from several goroutines, the main goroutine draining events, drawing and rendering (at full speed or slowly), random Suspend/Resume, Close at the end (sometimes while input is still arriving), event-queue sizes {16, 1024} (and {1, 2} for the not-draining shutdown scenario), delay points armed at random to widen windows; signal sessions with a backlog (400 keys queued behind a full queue of 1, 8 or 32 events, the signal, then the application reads again: the console must be closed and no library goroutine left). Oracles: race-detector reports with a vaxis frame; per-producer order and exactly-once delivery of blocking posts; completion of Close/Suspend (else goroutine-dump evidence); goroutines created in vaxis code still alive after Close. A case is one session; distinct = hash of its parameters; interleaving diversity is measured as distinct orders of observed hook/API events"
+	return "stress sessions under the Go race detector on an in-memory console: 2-16 producer goroutines mixing PostEvent / PostEventBlocking / SyncFunc / Resize with unique (producer, sequence) ids, 0-3 query goroutines (CursorPosition, colour queries, ClipboardPop with a deadline), terminal input arriving in bursts including lone ESC around the Escape timer and in-band resize reports, a spinner widget started/stopped/toggled from several goroutines, the main goroutine draining events, drawing and rendering (at full speed or slowly), random Suspend/Resume, Close at the end (sometimes while input is still arriving), event-queue sizes {16, 1024} (and {1, 2} for the not-draining shutdown scenario), delay points armed at random to widen windows; signal sessions with a backlog (400 keys queued behind a full queue of 1, 8 or 32 events, the signal, then the application reads again: the console must be closed and no library goroutine left); Close with keys pending while the application reads slowly and stops reading once Close has returned. Oracles: race-detector reports with a vaxis frame; per-producer order and exactly-once delivery of blocking posts; completion of Close/Suspend (else goroutine-dump evidence); goroutines created in vaxis code still alive after Close. A case is one session; distinct = hash of its parameters; interleaving diversity is measured as distinct orders of observed hook/API events"
 }
 func (check) Assumptions() []string {
 	return []string{
@@ -523,6 +523,16 @@ loop:
 	}
 	if len(after) > len(before) {
 		extra := diffList(before, after)
+		if dump := harness.AllStacks(); parkedPosting(dump) {
+			// the session's reader stopped when Close returned, with the
+			// queue full and an input burst still pending (open finding)
+			w.ViolationStack(parkedKey, "Close returned, the application stopped reading events, and the input goroutine is still alive: it is parked in PostEventBlocking on a queue nobody reads any more: "+strings.Join(extra, ", "), sc, strings.Join(extra, ", "), "none", dump[:min(len(dump), 5000)])
+			for i := 0; i < 300 && len(vaxisGoroutines()) > len(before); i++ {
+				sess.DrainEvents()
+				time.Sleep(5 * time.Millisecond)
+			}
+			return
+		}
 		key := "leak:" + strings.Join(extra, ",")
 		if len(key) > 120 {
 			key = key[:120]
@@ -671,6 +681,12 @@ func (c check) Run(w *harness.W, b harness.Batch) {
 		}
 	case "quiet-shutdown":
 		for i := 0; i < s.N; i++ {
+			if i%6 == 3 {
+				if !runCloseThenStopReading(w, gen.New(r.Int63())) {
+					break
+				}
+				continue
+			}
 			if i%6 == 5 {
 				if !runSignalWithBacklog(w, gen.New(r.Int63())) {
 					break
@@ -1020,6 +1036,114 @@ func runSignalThenClose(w *harness.W, r gen.R) bool {
 		return false
 	}
 	w.Sample(sc)
+	return true
+}
+
+// parkedKey: the input goroutine is still there after Close returned, parked in
+// PostEventBlocking on a queue nobody reads any more (open finding; the stack
+// dump is the witness).
+const parkedKey = "leak:input-goroutine-parked-posting-after-close"
+
+func parkedPosting(dump string) bool {
+	for _, g := range strings.Split(dump, "\n\n") {
+		if strings.Contains(g, "openTty.func1") && strings.Contains(g, "PostEventBlocking") && strings.Contains(g, "chan send") {
+			return true
+		}
+	}
+	return false
+}
+
+// stopCase: keys are pending when the application calls Close; it goes on
+// reading events (slowly) until Close has returned and then stops, as an
+// application that is about to exit does. No library goroutine may be left.
+type stopCase struct {
+	QueueSize int `json:"queue_size"`
+	Keys      int `json:"keys_pending_at_close"`
+}
+
+func runCloseThenStopReading(w *harness.W, r gen.R) bool {
+	sc := stopCase{QueueSize: []int{1, 4, 16}[r.Intn(3)], Keys: 400}
+	cj, _ := json.Marshal(sc)
+	w.Begin(string(cj))
+	defer w.End()
+	before := vaxisGoroutines()
+	t := refterm.New(40, 10, refterm.CapsFromMask(0))
+	con := memcon.New(t)
+	vx, err := vaxis.New(vaxis.Options{WithConsole: con, EventQueueSize: sc.QueueSize})
+	if err != nil {
+		w.Inconclusive("start-failed")
+		return true
+	}
+	sess := &vxh.Session{Term: t, Con: con, Vx: vx}
+	if _, ok := sess.Sync(); !ok {
+		w.Inconclusive("startup-sync-timeout")
+		return true
+	}
+	w.Case("close-then-stop-reading|" + string(cj))
+	w.Count("close_then_stop_reading_sessions", 1)
+	con.Inject([]byte(strings.Repeat("k", sc.Keys)))
+	for i := 0; i < 200 && len(vx.Events()) < sc.QueueSize; i++ {
+		time.Sleep(time.Millisecond)
+	}
+	done := make(chan struct{})
+	go func() { vx.Close(); close(done) }()
+	timeout := time.After(20 * time.Second)
+	tick := time.NewTicker(time.Millisecond)
+	defer tick.Stop()
+	for closed := false; !closed; {
+		select {
+		case <-done:
+			closed = true
+		case <-tick.C:
+			select {
+			case <-vx.Events():
+			default:
+			}
+		case <-timeout:
+			dump := harness.AllStacks()
+			if strings.Contains(dump, "ansi.(*Parser).WaitClose") {
+				w.ViolationStack("shutdown:close-never-returns", "Close did not return although the application kept reading events", sc, "blocked in WaitClose", "returns", dump[:min(len(dump), 5000)])
+			} else {
+				w.Inconclusive("close-timeout-without-corroboration")
+			}
+			return false
+		}
+	}
+	// the application has stopped reading
+	var after []string
+	for i := 0; i < 200; i++ {
+		after = vaxisGoroutines()
+		if len(after) <= len(before) {
+			break
+		}
+		time.Sleep(10 * time.Millisecond)
+	}
+	ok := true
+	if len(after) > len(before) {
+		ok = false
+		dump := harness.AllStacks()
+		extra := diffList(before, after)
+		if parkedPosting(dump) {
+			w.ViolationStack(parkedKey, "Close returned, the application stopped reading events, and the input goroutine is still alive: it is parked in PostEventBlocking posting a key that was pending, on a queue nobody reads any more: "+strings.Join(extra, ", "), sc, strings.Join(extra, ", "), "none", dump[:min(len(dump), 5000)])
+		} else {
+			key := "leak:after-close-then-stop-reading:" + strings.Join(extra, ",")
+			if len(key) > 120 {
+				key = key[:120]
+			}
+			w.Violation(key, "goroutines started by the library are still alive 2s after Close returned: "+strings.Join(extra, ", "), sc, strings.Join(extra, ", "), "none")
+		}
+		// let it go, so that the next session starts from a clean slate
+		for i := 0; i < 300 && len(vaxisGoroutines()) > len(before); i++ {
+			select {
+			case <-vx.Events():
+			default:
+				time.Sleep(5 * time.Millisecond)
+			}
+		}
+	}
+	if ok {
+		w.Sample(sc)
+	}
 	return true
 }
 
